@@ -368,14 +368,16 @@ Definition chk_dup (whole dupv : verdict) : bool := verdict_eqb whole dupv.
 Definition chk_ren (whole : verdict) (rn : list (name * name)) (renv : verdict) : bool :=
   verdict_eqb renv (ren_verdict (apply_ren rn) whole).
 
-(** real-valued clause on each SET-*/SHIFT-* instruction: accepted iff every leaf is REAL memory,
-    pi, or a number accepted as real, with no variables *)
+(** real-valued clause on each SET-*/SHIFT-* instruction, in the property's STRICT wording:
+    accepted iff every leaf is REAL memory, pi, or a real number (imaginary part exactly 0), with
+    no variables.  The implementation's tolerance (|im| <= f64::EPSILON passes) violates this on
+    the known-finding class [has_inexact_num]; see C30_real_valued_strict_refuted. *)
 Fixpoint chk_real (D : decls) (is : list instr) (singles : list verdict) : bool :=
   match is, singles with
   | [], [] => true
   | i :: is', v :: vs' =>
       (match i with
-       | ISet _ e => Bool.eqb (is_ok v) (real_leaves num_accepted D e)
+       | ISet _ e => Bool.eqb (is_ok v) (real_leaves num_strict D e)
        | _ => true
        end) && chk_real D is' vs'
   | _, _ => false
